@@ -16,21 +16,23 @@ import (
 	"path/filepath"
 	"strconv"
 	"strings"
+
+	"golang.org/x/tools/go/ssa"
 	"time"
 )
 
 type planNode struct {
-	kind     string // scalar ptr slice struct nil unsupported array
-	ty       types.Type
-	term     int // index into terms (scalar / ptr ref)
-	comps    [4]int
-	children []*planNode
-	names    []string
-	elemTerms []int // slice contents (round 2)
+	kind      string // scalar ptr slice struct nil unsupported array
+	ty        types.Type
+	term      int // index into terms (scalar / ptr ref)
+	comps     [4]int
+	children  []*planNode
+	names     []string
+	elemTerms []int       // slice contents (round 2)
 	elemPlans []*planNode // slice contents of composite element type (round 2)
-	sliceVal Val
-	arrTerm  string
-	arrLen   int
+	sliceVal  Val
+	arrTerm   string
+	arrLen    int
 }
 
 type replayGen struct {
@@ -325,9 +327,66 @@ func solverByName(name string) Solver {
 	return solvers[0]
 }
 
+// fsMutators: functions that create, change or remove files.  A function under
+// contract that reaches one of them (through static calls, up to three levels
+// inside the module) is never EXECUTED with solver-chosen inputs: a replay runs
+// in the package directory of the working tree, and a model string used as a
+// path would create or delete files there.
+var fsMutators = map[string]bool{
+	"os.Remove": true, "os.RemoveAll": true, "os.Rename": true, "os.WriteFile": true, "os.Create": true,
+	"os.Mkdir": true, "os.MkdirAll": true, "os.OpenFile": true, "os.Truncate": true, "os.Chmod": true,
+	"os.Symlink": true, "os.Link": true, "io/ioutil.WriteFile": true, "os.CreateTemp": true, "os.MkdirTemp": true,
+}
+
+func reachesFsMutator(fn *ssa.Function, depth int, seen map[*ssa.Function]bool) string {
+	if fn == nil || seen[fn] || depth < 0 {
+		return ""
+	}
+	seen[fn] = true
+	for _, b := range fn.Blocks {
+		for _, in := range b.Instrs {
+			var cc *ssa.CallCommon
+			switch x := in.(type) {
+			case *ssa.Call:
+				cc = x.Common()
+			case *ssa.Defer:
+				cc = x.Common()
+			case *ssa.Go:
+				cc = x.Common()
+			}
+			if cc == nil {
+				continue
+			}
+			callee := cc.StaticCallee()
+			if callee == nil {
+				continue
+			}
+			name := calleeName(callee)
+			if fsMutators[name] {
+				return name
+			}
+			if callee.Pkg != nil && strings.HasPrefix(callee.Pkg.Pkg.Path(), modulePath) {
+				if r := reachesFsMutator(callee, depth-1, seen); r != "" {
+					return r
+				}
+			}
+		}
+	}
+	for _, a := range fn.AnonFuncs {
+		if r := reachesFsMutator(a, depth, seen); r != "" {
+			return r
+		}
+	}
+	return ""
+}
+
 func buildReplay(o CheckOpts, w *World, r *OblReport, rf *ReplayFile) {
 	t := r.ft
 	fn := t.fn
+	if m := reachesFsMutator(fn, 3, map[*ssa.Function]bool{}); m != "" {
+		rf.Note = "replay not executed: the function under contract reaches " + m + " (a file-system mutation); running it on solver-chosen inputs could create or delete files of the working tree"
+		return
+	}
 	g := &replayGen{t: t, w: w, imports: map[string]string{"testing": "testing", "fmt": "fmt"}, specs: map[string]bool{}}
 	defer func() {
 		if p := recover(); p != nil {
